@@ -64,11 +64,53 @@ def _balanced(t):
     return d == 0
 
 
+# what the decisions of the path being matched imply (set by check_hashdata before each match)
+_PATH = {'no_lf': set()}
+LF_TEXTS = ('C(0a)', '10', "'\\n'")
+
+
+def implied_atoms(sk, value, out):
+    """Atoms of a decision skeleton whose truth the decision taken FORCES: the atom itself, through `not`, every conjunct of a
+    true `and`, every disjunct of a false `or`.  Nothing is implied by a false `and` / true `or`."""
+    if sk is None:
+        return
+    k = sk[0]
+    if k == 'const':
+        return
+    if k == 'not':
+        implied_atoms(sk[1], not value, out)
+    elif k == 'and':
+        if value:
+            for x in sk[1]:
+                implied_atoms(x, True, out)
+    elif k == 'or':
+        if not value:
+            for x in sk[1]:
+                implied_atoms(x, False, out)
+    else:
+        out.append((sk, value))
+
+
+def documents_without_lf(s):
+    """Texts X for which the decisions of path s imply "no LF octet occurs in X": a membership test of exactly the LF octet
+    (b'\\n' / 10) in X that the path decided as absent.  Nothing weaker counts (a test for CR, for a length, for a type)."""
+    out = set()
+    for text, value, sk in s.facts:
+        atoms = []
+        implied_atoms(sk, value, atoms)
+        for a, v in atoms:
+            if a[0] == 'cmp' and a[1] in ('in', 'not in') and a[2] in LF_TEXTS and (a[1] == 'not in') == v:
+                out.add(a[3])
+    return out
+
+
 def canon_pred(doc_aliases):
     """CANON(DOC): every line ending of DOC converted to CR LF (RFC 4880 5.2.4 / 7.1), decided on the regex AST."""
     def p(item):
         if item[0] != 'SYM':
             return False
+        if item[1] in doc_aliases and item[1] in _PATH['no_lf']:
+            return True           # on a path that decided "DOC contains no LF" the canonical form of DOC is DOC itself
         # value text of the term: re.sub(P, R, DOC[, 0][, flags=0]) or re.subn(...)[0]; a compiled pattern is spelled back to this
         # form by the canonicaliser, locals are resolved by the interpreter
         m = re.match(r"^re\.(subn?)\((.*)\)(\[0\])?$", item[1])
@@ -125,7 +167,10 @@ def scenarios():
     def subj_key(primary):
         return Sym('subject', types={'PGPKey'}, attrs={'is_primary': Const(primary)}, nonnull=True)
 
-    for kind, mk in (('bytes', subj_bytes), ('str', subj_str)):
+    def subj_bytearray():
+        return Sym('subject', types={'bytearray'}, nonnull=True)
+
+    for kind, mk in (('bytes', subj_bytes), ('str', subj_str), ('bytearray', subj_bytearray)):
         out.append(('0x00 BinaryDocument x %s' % kind, 'BinaryDocument', mk(),
                     lambda DOC: [SYM(DOC)], {'DOC': DOC_ALIASES}, {}))
         out.append(('0x01 CanonicalDocument x %s' % kind, 'CanonicalDocument', mk(),
@@ -216,10 +261,15 @@ def check_hashdata(rep, prog, rid, only_types=None):
                               where=fi.where, scenario=name, found=render(s.ret))
                 continue
             r = render(s.ret)
-            if r in seen:
+            nolf = documents_without_lf(s)
+            if (r, frozenset(nolf)) in seen:
                 continue
-            seen.add(r)
-            ok, roles, msg, exp = match_any(s.ret.items, builder, role_aliases)
+            seen.add((r, frozenset(nolf)))
+            _PATH['no_lf'] = nolf
+            try:
+                ok, roles, msg, exp = match_any(s.ret.items, builder, role_aliases)
+            finally:
+                _PATH['no_lf'] = set()
             n += 1
             if ok:
                 rep.ok(rid, 'PGPSignature.hashdata', {'found': r, 'template': exp}, scenario=name)
